@@ -57,6 +57,7 @@ type isOpts struct {
 	noServerRecv bool // the handler never receives (backpressure scripts)
 	noClientRecv bool
 	sendHeavy   bool
+	hSendHeavy  bool // the handler mostly sends (the client receives now and then, then stalls)
 	halfDuplex  bool     // the handler sends only after the client has closed its send side
 	transport   string   // "inproc" (default) or "http" (in-memory transport)
 	fixed       []isStep // if set, run exactly these steps
@@ -244,6 +245,11 @@ func runInprocScript(rng *Rng, kind string, o isOpts) *isScript {
 				if !o.halfDuplex || sendSideClosed {
 					cands = append(cands, isStep{actor: "h", op: "send", arg: 200 + nextMsg}, isStep{actor: "h", op: "send", arg: 200 + nextMsg},
 						isStep{actor: "h", op: "sendheader", arg: nextMD})
+					if o.hSendHeavy {
+						for k := 0; k < 6; k++ {
+							cands = append(cands, isStep{actor: "h", op: "send", arg: 200 + nextMsg})
+						}
+					}
 					herrs := []string{"nil", "nil", "status:5", "status:13", "plain", "ctx:canceled", "ctx:deadline"}
 					cands = append(cands, isStep{actor: "h", op: "return", herr: herrs[rng.Intn(len(herrs))]})
 				}
